@@ -74,6 +74,11 @@ class Ctx:
         self._canon = [s[0] == 'ok' and s[1] == x['b'] for s, x in zip(st, self.base)]
         self.chk.log('canonical (GNU as reproduces the bytes from objdump text): %d of %d' % (sum(self._canon), len(self.base)))
         return self._canon
+    def canonical_of(self, items, tag='canon2'):
+        """the same judgement for other decoded strings (e.g. those on which the library's TEXT differs from objdump's)"""
+        if not items: return []
+        st = gas.assemble([self.fix_objdump_text(x['ref']) for x in items], 'intel', self.chk.work, tag)
+        return [s[0] == 'ok' and s[1] == x['b'] for s, x in zip(st, items)]
     @staticmethod
     def fix_objdump_text(t):
         t = re.sub(r'\s+#.*$', '', t); t = re.sub(r'<[^>]*>', '', t)
